@@ -28,8 +28,9 @@ type specFunc struct {
 // package's init() function; init is translated too and the table is its result (see tables.go)
 type specTable struct {
 	File string   `json:"file"`
-	Init string   `json:"init"` // name of the function that fills the tables (normally "init")
-	Vars []string `json:"vars"` // the package-level variables, in the order of the result tuple
+	Init string   `json:"init"`           // name of the function that fills the tables (normally "init")
+	Vars []string `json:"vars"`           // the package-level variables, in the order of the result tuple
+	Fuel string   `json:"fuel,omitempty"` // fuel of the initialiser's loops (default 300)
 }
 
 type spec struct {
